@@ -169,6 +169,12 @@ def check_proofs(prop_id, extra_targets=(), leanchecker=False):
     st = ProofStatus()
     t0 = time.time()
     ok, out = lake_build([f"WindVerif.Props.{prop_id}", "driver"] + list(extra_targets))
+    for _attempt in range(2):
+        if ok:
+            break
+        # another lake process working in the same directory can make a link step fail transiently: retry before believing it
+        time.sleep(5)
+        ok, out = lake_build([f"WindVerif.Props.{prop_id}", "driver"] + list(extra_targets))
     st.build_s = time.time() - t0
     if not ok:
         st.ok = False
